@@ -57,6 +57,13 @@ pub enum C02Case {
         /// 1 KeyNotFoundError, 2 DigestMismatchError, 3 Io, 4 UnsupportedPGPKeyType-like Nom)
         #[serde(default)]
         reject_kinds: Vec<u8>,
+        /// sort keys permuting the index records of the signature header (empty = ascending tags)
+        #[serde(default)]
+        order: Vec<u16>,
+        /// further unsigned digests in the signature header: bit 0 MD5 present, bit 1 SHA1
+        /// present, bit 2 MD5 recorded wrongly, bit 3 SHA1 recorded wrongly
+        #[serde(default)]
+        more_digests: u8,
     },
     /// domain B: signed base package with one bit flipped in the main header or payload;
     /// `fixup` = the attacker also recomputes the (unsigned) digests
@@ -346,7 +353,7 @@ impl Property for C02 {
         vec!["the converse (a correctly signed package must verify) is not part of the statement and not asserted here (C10 covers it)".into()]
     }
     fn required_labels(&self, _t: Tier) -> Vec<&'static str> {
-        vec!["base-legacy-tag-only", "base-header+payload-tag", "recording", "returned-ok", "verifier-consulted", "openpgp-zero-entries", "openpgp-wrong-type", "legacy-pgp-tag", "bitflip-differs", "bitflip-fixup", "bitflip-sig-rebuilt", "appended-entry-differs", "appended-entry-sig-rebuilt", "all-accepted-but-digest-wrong"]
+        vec!["base-legacy-tag-only", "base-header+payload-tag", "recording", "returned-ok", "verifier-consulted", "openpgp-zero-entries", "openpgp-wrong-type", "legacy-pgp-tag", "bitflip-differs", "bitflip-fixup", "bitflip-sig-rebuilt", "appended-entry-differs", "appended-entry-sig-rebuilt", "all-accepted-but-digest-wrong", "permuted-sig-index"]
     }
     fn phases(&self, tier: Tier) -> Vec<Phase<C02Case>> {
         let mut flips: Vec<(u8, u32)> = vec![];
@@ -363,7 +370,7 @@ impl Property for C02 {
         vec![
             Phase::Random {
                 name: "recording-verifier",
-                cases: tier.pick(40_000, 4_000_000),
+                cases: tier.pick(200_000, 4_000_000),
                 strat: Arc::new(|| {
                     (
                         proptest::collection::vec(any::<u8>(), 0..24),
@@ -374,8 +381,9 @@ impl Property for C02 {
                         prop::bool::weighted(0.85),
                         proptest::option::weighted(0.5, prop::bool::weighted(0.85)),
                         (prop_oneof![3 => Just(vec![true; 6]), 2 => proptest::collection::vec(any::<bool>(), 0..5), 1 => proptest::collection::vec(prop::bool::weighted(0.8), 4)], proptest::collection::vec(0u8..5, 6)),
+                        (prop_oneof![1 => Just(vec![]), 1 => proptest::collection::vec(0u16..8, 8)], prop_oneof![2 => Just(0u8), 2 => Just(3u8), 1 => 0u8..16]),
                     )
-                        .prop_map(|(payload, openpgp, rsa, dsa, pgp, digests_ok, payload_digest, (answers, reject_kinds))| C02Case::Recording { payload, openpgp, rsa, dsa, pgp, digests_ok, payload_digest, answers, reject_kinds })
+                        .prop_map(|(payload, openpgp, rsa, dsa, pgp, digests_ok, payload_digest, (answers, reject_kinds), (order, more_digests))| C02Case::Recording { payload, openpgp, rsa, dsa, pgp, digests_ok, payload_digest, answers, reject_kinds, order, more_digests })
                         .boxed()
                 }),
             },
@@ -387,7 +395,7 @@ impl Property for C02 {
             },
             Phase::Random {
                 name: "appended-entries",
-                cases: tier.pick(6_000, 600_000),
+                cases: tier.pick(30_000, 600_000),
                 strat: Arc::new(move || {
                     (0..nb.max(1), prop_oneof![3 => proptest::sample::select(vec![tags::POSTIN, tags::PREIN, tags::VENDOR, tags::URL, tags::NAME, tags::PAYLOADCOMPRESSOR, 9999u32, 1u32 << 20]), 1 => any::<u32>()], proptest::collection::vec(any::<u8>(), 0..24), 0u8..3)
                         .prop_map(|(base, tag, data, mode)| C02Case::Appended { base, tag, data, mode })
@@ -396,7 +404,7 @@ impl Property for C02 {
             },
             Phase::Random {
                 name: "multi-byte-edits",
-                cases: tier.pick(20_000, 2_000_000),
+                cases: tier.pick(100_000, 2_000_000),
                 strat: Arc::new(move || {
                     (0..nb.max(1), proptest::collection::vec(crate::gen::mutate::mutation(), 1..4), prop_oneof![Just(3u8), Just(4u8), Just(6u8)], 0u8..3)
                         .prop_map(|(base, muts, region, mode)| C02Case::Mutated { base, muts, region, fixup: mode == 1, rebuild_sig: mode == 2 })
@@ -408,7 +416,7 @@ impl Property for C02 {
     fn check(&self, case: &C02Case) -> Outcome {
         let mut o = Outcome::new();
         let r = match case {
-            C02Case::Recording { payload, openpgp, rsa, dsa, pgp, digests_ok, payload_digest, answers, reject_kinds } => recording(&mut o, payload, openpgp, rsa, dsa, pgp, *digests_ok, *payload_digest, answers, reject_kinds),
+            C02Case::Recording { payload, openpgp, rsa, dsa, pgp, digests_ok, payload_digest, answers, reject_kinds, order, more_digests } => recording(&mut o, payload, openpgp, rsa, dsa, pgp, *digests_ok, *payload_digest, answers, reject_kinds, order, *more_digests),
             C02Case::BitFlip { base, bit, fixup, rebuild_sig } => {
                 let (_, orig, key) = &self.bases[*base as usize % self.bases.len()];
                 let mut m = orig.clone();
@@ -496,7 +504,7 @@ impl C02 {
 }
 
 #[allow(clippy::too_many_arguments)]
-fn recording(o: &mut Outcome, payload: &[u8], openpgp: &Option<SigVal>, rsa: &Option<SigVal>, dsa: &Option<SigVal>, pgp: &Option<SigVal>, digests_ok: bool, payload_digest: Option<bool>, answers: &[bool], reject_kinds: &[u8]) -> Result<(), (String, String)> {
+fn recording(o: &mut Outcome, payload: &[u8], openpgp: &Option<SigVal>, rsa: &Option<SigVal>, dsa: &Option<SigVal>, pgp: &Option<SigVal>, digests_ok: bool, payload_digest: Option<bool>, answers: &[bool], reject_kinds: &[u8], order: &[u16], more_digests: u8) -> Result<(), (String, String)> {
     o.label("recording");
     let mut main = filepkg::basic_entries("rec");
     if let Some(ok) = payload_digest {
@@ -513,8 +521,21 @@ fn recording(o: &mut Outcome, payload: &[u8], openpgp: &Option<SigVal>, rsa: &Op
             sig.push(sig_entry(tag, v));
         }
     }
+    if more_digests & 1 != 0 {
+        sig.push((tags::SIG_MD5, Val::Bin(if more_digests & 4 == 0 { digests::md5_raw(&[&hb, payload]) } else { digests::md5_raw(&[&hb, payload, b"!"]) })));
+    }
+    if more_digests & 2 != 0 {
+        sig.push((tags::SIG_SHA1, Val::s(&if more_digests & 8 == 0 { digests::sha1_hex(&[&hb]) } else { digests::sha1_hex(&[&hb, b"!"]) })));
+    }
     sig.sort_by_key(|e| e.0);
-    let sigh = fmt::layout(&sig, Some(fmt::TAG_HEADERSIGNATURES));
+    // the data of the entries stays where it is; only the order of the index records varies
+    let mut sigh = fmt::layout(&sig, Some(fmt::TAG_HEADERSIGNATURES));
+    if !order.is_empty() {
+        o.label("permuted-sig-index");
+        let mut keyed: Vec<(u16, usize, fmt::RawEntry)> = sigh.entries.drain(..).enumerate().map(|(i, e)| (order[i % order.len()], i, e)).collect();
+        keyed.sort_by_key(|k| (k.0, k.1));
+        sigh.entries.extend(keyed.into_iter().map(|k| k.2));
+    }
     let pad = vec![0u8; fmt::sig_padding(sigh.dl)];
     let bytes = fmt::RawPackage { lead: fmt::default_lead("rec"), sig: sigh, sig_pad: pad, hdr, payload: payload.to_vec() }.encode();
     if matches!(openpgp, Some(SigVal::Array { items, .. }) if items.is_empty()) {
@@ -526,14 +547,14 @@ fn recording(o: &mut Outcome, payload: &[u8], openpgp: &Option<SigVal>, rsa: &Op
     if pgp.is_some() {
         o.label("legacy-pgp-tag");
     }
-    let p = match panics::catch(|| rpm::Package::parse(&mut &bytes[..])) {
+    let p = match panics::catch(|| super::common::with_source(&bytes, fnv1a(&bytes) >> 9, |mut r| rpm::Package::parse(&mut r))) {
         Ok(Ok(p)) => p,
         _ => {
             o.label("unparseable");
             return Ok(());
         }
     };
-    let all_digests_ok = digests_ok && payload_digest != Some(false);
+    let all_digests_ok = digests_ok && payload_digest != Some(false) && (more_digests & 5 != 5) && (more_digests & 10 != 10);
     if !all_digests_ok && answers.iter().all(|a| *a) && !answers.is_empty() {
         o.label("all-accepted-but-digest-wrong");
     }
